@@ -30,4 +30,5 @@ def main(tier):
     chk.run("R-DEPORDER", B.deporder, r, clauses=("text", "ok"), floor=3)
     chk.run("R-CYCLEPATH", DR.cyclepath, cx.repo, floor=2)
     chk.run("R-EDGEACC", DR.edgeacc, cx.repo, cx.schema, cx.sites, floor=3)
+    chk.run("R-ALIASEDGE", DR.aliasedge, cx.repo, floor=2)
     return chk.finish()
